@@ -198,7 +198,7 @@ def boundary(rng):
     a, b, c = Quantity(1 * m), Quantity(-1 * m), Quantity(1 * s)
     z, zs = Quantity(0), Quantity(0 * s)
     inf = Quantity(oo, dimension=units.length)
-    k = rng.randrange(16)
+    k = rng.randrange(18)
     cases = [
         lambda: Add(a, b, c, evaluate=False),                 # cancelling prefix, then another dimension: must refuse
         lambda: Add(c, a, b, evaluate=False),
@@ -216,6 +216,8 @@ def boundary(rng):
         lambda: Quantity(Float(0.0)) + Quantity(3 * kg),
         lambda: Abs(Quantity(-5 * units.volt)),
         lambda: 2**Quantity(0 * m),
+        lambda: sympy.zoo,
+        lambda: Quantity(sympy.zoo) * units.meter,
     ]
     return cases[k]()
 
